@@ -115,3 +115,57 @@ func GenSpecEditFamily(t *rapid.T) *World {
 	}
 	return w
 }
+
+// GenDRALifecycleFamily builds histories of one scheduler process in which DRA devices go through their whole life:
+// pods with device claims are bound through bind requests that are still live when the next session opens, run,
+// finish, their claims are deallocated by the claim controller - and other pending pods need exactly those devices.
+// Whatever the process remembers of a claim (assumed states, in-flight allocations) must not outlive the claim's real
+// state: a device that is free in the API is given to the next pod that needs it (C05), and never to two (C01).
+func GenDRALifecycleFamily(t *rapid.T) *World {
+	w := &World{Family: "dra-lifecycle"}
+	w.PersistentScheduler = chance(t, 9, "persistent")
+	c := &w.Config
+	c.FullHierarchy = true
+	c.PlacementGPU, c.PlacementCPU = "binpack", "binpack"
+	c.MaxConsolidation = 16
+	c.Actions = []string{"allocate"}
+	nNodes := between(t, 1, 2, "nNodes")
+	for i := 0; i < nNodes; i++ {
+		w.Nodes = append(w.Nodes, Node{Name: fmt.Sprintf("n%d", i), CPU: 32000, MemMB: 65536, Pods: 110, Labels: map[string]string{},
+			DRA: map[string]int{DRAClass: between(t, 1, 2, "devices")}})
+	}
+	free := QRes{Quota: -1, Limit: -1, Weight: 1}
+	w.Queues = []Queue{{Name: "root", GPU: free, CPU: free, Mem: free}, {Name: "qa", Parent: "root", GPU: free, CPU: free, Mem: free}}
+	total := 0
+	for _, n := range w.Nodes {
+		total += n.DRA[DRAClass]
+	}
+	// first wave: as many single-pod workloads as there are devices (they take them all), second wave: waits
+	nFirst := total
+	nSecond := between(t, 1, total, "secondWave")
+	mk := func(name string, created int) Group {
+		return Group{Name: name, Queue: "qa", PriorityClass: "train", MinMember: 1, CreatedMin: created,
+			Pods: []Pod{{Name: name + "-p0", CPU: 100, MemMB: 64, State: Pending, CreatedMin: created, Claims: []Claim{{Name: "nic", Class: DRAClass, Count: 1}}}}}
+	}
+	for i := 0; i < nFirst; i++ {
+		w.Groups = append(w.Groups, mk(fmt.Sprintf("a%d", i), 500-i))
+	}
+	for i := 0; i < nSecond; i++ {
+		w.Groups = append(w.Groups, mk(fmt.Sprintf("b%d", i), 100-i))
+	}
+	// cycle 0: first wave is bound, the binder does not get to the requests before cycle 1 opens (or does);
+	// then the binder completes them; some of the first wave finish; enough cycles for the second wave to follow
+	w.Cycles = []CycleScript{{BindMode: pickInt(t, "bind0", 1, 1, 0), Salt: 1}, {BindMode: 0, Salt: 2}}
+	nFinish := between(t, 1, nFirst, "finishing")
+	gap := between(t, 1, 2, "finishGap")
+	for len(w.Cycles) <= gap {
+		w.Cycles = append(w.Cycles, CycleScript{BindMode: 0, Salt: len(w.Cycles) + 1})
+	}
+	for i := 0; i < nFinish; i++ {
+		w.Cycles[gap].Mutations = append(w.Cycles[gap].Mutations, Mutation{Kind: "pod-finish", Target: fmt.Sprintf("a%d-p0", i)})
+	}
+	for k := between(t, 3, 4, "tail"); k > 0; k-- {
+		w.Cycles = append(w.Cycles, CycleScript{BindMode: 0, Salt: len(w.Cycles) + 1})
+	}
+	return w
+}
